@@ -1,0 +1,17 @@
+//go:build verif
+
+package ast_python
+
+// Contracts checked by /verif (vcgo). Comment-only: no executable code.
+// C20: the Python front-end never crashes on an error-free parse tree. State invariant between two callbacks:
+
+//@ invariant currentCodeFile != nil && Allocated(currentCodeFile)
+
+//@ func NewPythonIdentListener
+//@ establishes
+//@ modifies *
+
+//@ func BuildDecoratorsByIndex
+//@ inline
+//@ loop 1 invariant i >= 0
+//@ loop 1 invariant forall k int :: {nodes[k]} 0 <= k && k < len(nodes) ==> nodes[k] != nil
